@@ -12,7 +12,7 @@ TRUST = "Sampling, not enumeration: a clean batch is evidence, not proof. Truste
 CLAIMED = {
     "C01": (SIM + ": writer histories with close-at-an-arbitrary-instant (drop / into_inner / flush;flush;drop / flush;into_inner) over recording, vector, slice, WordAdapter/SimDisk and BufWriter backends, five word sizes",
             "exploration",
-            "Seeded search over histories of write_bits(v,n)/write_unary/flush (dirty high bits, n and unary lengths biased to the free space of the bit buffer +-1 and to word multiples) on every (endianness, word, backend kind); after every op the words delivered so far must be a prefix of the model image and the return value exact; after the close the image must be model + zero padding, flush idempotent; a quarter of the runs replays the history on all five word sizes.",
+            "Seeded search over histories of write_bits(v,n)/write_unary/flush (dirty high bits, n and unary lengths biased to the free space of the bit buffer +-1 and to word multiples) on every (endianness, word, backend kind); after every op the words delivered so far must be a prefix of the model image (never more than the whole words written); flush must report the pending bits; after the close the image must be model + zero padding, flush idempotent; a quarter of the runs replays the history on all five word sizes.",
             TRUST, "DESIGN.md §4 C01"),
     "C02": (SIM + ": reader histories (read_bits/read_unary/skip/peek x2/clone) over every reader kind and backend, device backends with benign short-read/Interrupted faults",
             "exploration",
@@ -40,8 +40,8 @@ CLAIMED = {
             TRUST + " Nothing asserted after the first Err.", "DESIGN.md §4 C09"),
     "C11": (SIM + " with fault injection: real WordAdapter over a simulated byte device (SimDisk) with seeded fault plans (short reads/writes at every byte limit, Interrupted, Ok(0), hard errors, seek errors, full device, trailing partial word); conservation oracle over the recorded device history",
             "fault_enumeration",
-            "The first fault of each faulting run is placed systematically (call index = run/15 mod calls, byte limit cycling through 1..word bytes-1) so that every call index and per-call limit is hit across runs; further benign faults at a swarm-randomised rate. Oracle: bytes acknowledged with Ok are on the device exactly once and in order; an error leaves the acknowledged bytes plus at most a prefix of the failed word; words read equal successive device chunks; a trailing partial word is an error; word_pos = words transferred; fault-free runs must succeed.",
-            TRUST + " Nothing is asserted about a stream after its first error.", "DESIGN.md §4 C11"),
+            "The first fault of each faulting run is placed systematically (call index = run/15 mod calls, byte limit cycling through 1..word bytes-1) so that every call index and per-call limit is hit across runs; further benign faults at a swarm-randomised rate. Oracle: bytes acknowledged with Ok are on the device exactly once and in order; an error leaves the acknowledged bytes plus at most a prefix of the failed word; words read equal successive device chunks; a trailing partial word is an error; word_pos = words transferred; fault-free runs must succeed; after a failed read or write, checking resumes at the next successful absolute seek (seeking to a word position addresses that word). 'Trickle' plans make nearly every call short or interrupted. Bit-level reads include table-driven codes (known finding: a hard error inside the look-ahead is swallowed by the table readers).",
+            TRUST + " Nothing is asserted about a stream between an error and the next successful seek.", "DESIGN.md §4 C11"),
     "C12": (SIM + ": histories interleaving io::Write::write/write_all and io::Read::read of slices of every length class with bit operations at every bit offset, writer words u8..u128, all reader kinds",
             "exploration",
             "The model stream gains / yields exactly the slice bytes in stream order at the current position; the call reports the whole slice; no panic.",
@@ -55,9 +55,9 @@ CLAIMED = {
             "exploration",
             "Values, returned lengths, bytes and positions must be identical; bits_read must equal the bare reader's bit_pos delta and bits_written the measured bits appended after every step; after a flush both consistent readings of the counter are accepted.",
             TRUST, "DESIGN.md §4 C14"),
-    "C15": ("deterministic simulation of thread schedules: shuttle (seeded random and PCT schedulers, replayable schedule) runs 2-4 simulated threads plus an observer on one shared CodesStatsWrapper whose Mutex is shuttle's through a cfg-guarded import; snapshots are checked as bitmask-identified subsets with real-time order; totals against real encoded sizes",
+    "C15": ("deterministic simulation of thread schedules: shuttle (seeded random and PCT schedulers, replayable schedule) runs 2-4 simulated threads plus an observer on one shared CodesStatsWrapper whose Mutex is shuttle's through a cfg-guarded import; snapshots are decoded (base-4 digits of the unary total) into per-value update counts and checked for exactness and real-time order; totals against real encoded sizes",
             "exploration",
-            "Per case 20 (quick) / 60 (thorough) schedules: every snapshot must be the exact sum over the subset of updates named by its unary bitmask (no torn update), contain all updates completed before it and none invoked after it; after join every per-code total equals the real encoded size measured from the writer's output (pins the index->parameter mapping); merged partial statistics (add, +=, +, sum, multiplicities) equal the union; best_code has the minimum total and its real cost. A failing schedule is pinned in the replay file.",
+            "Per case 20 (quick) / 60 (thorough) schedules: every snapshot must be the exact sum over the per-value update counts encoded in its unary total (no torn update; values may repeat, also across threads), contain all updates completed before it and none invoked after it; after join every per-code total equals the real encoded size measured from the writer's output (pins the index->parameter mapping); merged partial statistics (add, +=, +, sum, multiplicities; default family sizes and CodesStats<3,5,2,6,4>) equal the union; best_code has the minimum total and its real cost. A failing schedule is pinned in the replay file.",
             "Trusts shuttle's scheduler and Mutex model; the only lock in the crate is the one replaced through the hook. Sizes for (code, value) pairs with unary parts above 20000 bits are not measured.",
             "DESIGN.md §4 C15"),
     "C19": ("deterministic configuration replay: the same seeded histories of families C01 C02 C03 C05 C07 C08 C12 C14 (clean arguments) are executed by 6 (quick) / 8 (thorough) builds of the crate (features default/checks/no_copy_impls/both x release/debug-assertions+overflow-checks) and the per-run event-log digests are diffed; exhaustive C19W family for the checks assertion",
